@@ -49,7 +49,9 @@ def _filter(draw, species, shape=None, mode=None):
         n = draw(st.integers(1, max(1, len(species) - 1)))
         s = list(draw(st.permutations(species)))[:n]
         if shape == "unknown":
-            s += draw(st.lists(st.sampled_from(["Zq", "Tq", "Nope"]), min_size=1, max_size=2, unique=True))
+            # labels nobody uses, among them re-spellings of real ones in another letter case (labels are case-sensitive)
+            variants = [x for sp in species for x in (sp.lower(), sp.upper(), sp.swapcase()) if x not in species]
+            s += draw(st.lists(st.sampled_from(["Zq", "Tq", "Nope"] + sorted(set(variants))), min_size=1, max_size=2, unique=True))
             s = list(draw(st.permutations(s)))
     elif shape == "full":
         s = list(draw(st.permutations(species)))
